@@ -51,7 +51,7 @@ ENV.pop("RUSTFLAGS", None)
 class Harness:
     def __init__(self, name, tier="quick", timeout=300, mem=8, covers=1, desc="",
                  inputs="", bound="", expect="pass", finding=None, extra_args=None,
-                 unwind_failure_is_violation=False, thorough_timeout=None, unwindset=None):
+                 unwind_failure_is_violation=False, thorough_timeout=None, unwindset=None, crate=None):
         self.name = name
         self.tier = tier
         self.timeout = timeout
@@ -65,6 +65,7 @@ class Harness:
         self.extra_args = extra_args or []
         self.unwind_failure_is_violation = unwind_failure_is_violation
         self.thorough_timeout = thorough_timeout
+        self.crate = crate            # harness crate, if different from the spec's
         # [(regex over "loop id: pretty function name", bound)]: per-loop bounds (CBMC --unwindset) that override the
         # harness-wide #[kani::unwind]; loop ids are read from the freshly compiled GOTO binary on every run.
         self.unwindset = unwindset or []
@@ -586,27 +587,33 @@ def run_check(spec, tier, seed):
 
     harnesses = [h for h in spec["harnesses"] if h.tier == "quick" or tier == "thorough"]
     problems = []
-    try:
-        cwd = prepare_crate(crate)
-    except Exception as e:
-        problems.append(str(e))
-        cwd = None
+    crate_of = lambda h: h.crate or crate
+    cwds = {}
     results = {}
-    if cwd:
-        clean_old_outputs(crate)
-        # warm-up build: dependencies are compiled once, serially, with the first harness.
-        first = harnesses[0]
-        log("[%s] building %s against %s ..." % (pid, crate, REPO))
-        logf = os.path.join(outdir, "_build.log")
-        rc, wall, _ = run_cmd(["cargo", "kani", "--target-dir", target_dir(crate), "--only-codegen",
-                               "--harness", first.name, "--exact"] + first.extra_args, cwd, 3000, 24, logf)
+    for c in sorted({crate_of(h) for h in harnesses}):
+        try:
+            cwds[c] = prepare_crate(c)
+        except Exception as e:
+            problems.append(str(e))
+            continue
+        clean_old_outputs(c)
+        # warm-up build: dependencies are compiled once, serially, with the first harness of the crate.
+        first = [h for h in harnesses if crate_of(h) == c][0]
+        log("[%s] building %s against %s ..." % (pid, c, REPO))
+        logf = os.path.join(outdir, "_build_%s.log" % c)
+        rc, wall, _ = run_cmd(["cargo", "kani", "--target-dir", target_dir(c), "--only-codegen",
+                               "--harness", first.name, "--exact"] + first.extra_args, cwds[c], 3000, 24, logf)
         if rc != 0:
             txt = open(logf, errors="replace").read()
             errs = re.findall(r"^error.*$", txt, re.M)
-            problems.append("harness crate does not build against the current tree (rc=%s): %s" % (rc, errs[:3] or txt[-600:]))
+            problems.append("harness crate %s does not build against the current tree (rc=%s): %s" % (c, rc, errs[:3] or txt[-600:]))
+            cwds.pop(c)
         else:
-            log("[%s] build ok in %.0fs; running %d solver queries (tier %s)" % (pid, wall, len(harnesses), tier))
-            results = schedule(harnesses, lambda h: run_harness(crate, cwd, h, tier, outdir))
+            log("[%s] build of %s ok in %.0fs" % (pid, c, wall))
+    runnable = [h for h in harnesses if crate_of(h) in cwds]
+    if runnable:
+        log("[%s] running %d solver queries (tier %s)" % (pid, len(runnable), tier))
+        results = schedule(runnable, lambda h: run_harness(crate_of(h), cwds[crate_of(h)], h, tier, outdir))
 
     violations = []
     known_seen = []
@@ -624,15 +631,16 @@ def run_check(spec, tier, seed):
             continue
         # failed: replay first
         log("[%s] counterexample in %s: %s -- replaying natively" % (pid, h.short, r["reason"]))
-        rec, rpath = replay_counterexample(pid, crate, h, outdir)
-        r["replay"] = {"path": rpath, "reproduced": rec.get("reproduced"), "values": rec.get("concrete_values")}
-        if h.unwind_failure_is_violation and rec.get("reproduced") is None and not rec.get("tests"):
-            # non-termination has no finite counterexample trace to play back; handled by spec hook
-            hook = spec.get("nonterm_replay")
-            if hook:
-                ok, rpath = hook(pid, h, r)
-                rec["reproduced"] = ok
-                r["replay"] = {"path": rpath, "reproduced": ok}
+        hook = spec.get("nonterm_replay")
+        if h.unwind_failure_is_violation and hook and "does not terminate" in r["reason"]:
+            # non-termination has no finite counterexample to play back (a generated test would simply hang):
+            # the spec's own native demonstration, run under a time limit, is the replay.
+            ok, rpath = hook(pid, h, r)
+            rec = {"reproduced": ok}
+            r["replay"] = {"path": rpath, "reproduced": ok}
+        else:
+            rec, rpath = replay_counterexample(pid, crate_of(h), h, outdir)
+            r["replay"] = {"path": rpath, "reproduced": rec.get("reproduced"), "values": rec.get("concrete_values")}
         if rec.get("reproduced"):
             if h.expect == "known_finding" and h.finding in known_for:
                 known_seen.append((h, known_for[h.finding], rpath))
@@ -686,7 +694,7 @@ def run_check(spec, tier, seed):
             "samples": samples,
             "obligations": props,
             "discharged": sum((s["cbmc_properties"] or 0) for s in samples if s["verdict"] == "holds"),
-            "checker_cmd": "cargo kani --harness <name> --exact  (Kani 0.68.0, CBMC 6.11.0, CaDiCaL), in /verif/harness/%s" % crate,
+            "checker_cmd": "cargo kani --harness <name> --exact  (Kani 0.68.0, CBMC 6.11.0, CaDiCaL), in /verif/harness/{%s}" % ",".join(sorted({crate_of(h) for h in harnesses})),
             "trusted_base": spec.get("trusted_base", []) + [
                 "Kani 0.68.0 / CBMC 6.11.0 / CaDiCaL and their model of Rust (dev profile, Kani's pinned nightly)",
                 "vendored memchr 2.7.4 and faster-hex 0.9.0 with x86_64 SIMD paths cfg'd out under Kani (portable fallbacks verified instead)",
